@@ -325,6 +325,27 @@ func genC03(r *Rng, tier string, emit func(string, Tok)) {
 		}
 		emit(kindName, scenario{kind: r.Intn(3) + 10*r.Intn(2), optSize: sizes(r), fault: -1, chunks: []int{r.Range(1, 500)}, data: data, ops: ops(r)}.tok())
 	}
+	// lost packets right before a unit start, and unit starts carrying the discontinuity indicator: the accumulator
+	// flushes an empty group there
+	for k := 0; k < scale(tier, 12, 80); k++ {
+		m := randStream(r, true)
+		data := m.bytes()
+		var d []byte
+		np := len(data) / 188
+		for i := 0; i < np; i++ {
+			b := data[188*i : 188*i+188]
+			next := i+1 < np && data[188*(i+1)+1]&0x40 != 0 && data[188*(i+1)+1]&0x1f == b[1]&0x1f && data[188*(i+1)+2] == b[2]
+			if next && r.Chance(1, 2) {
+				continue // drop the last packet of a unit
+			}
+			c := append([]byte{}, b...)
+			if c[1]&0x40 != 0 && c[3]&0x20 != 0 && c[4] > 0 && r.Chance(1, 3) {
+				c[5] |= 0x80 // discontinuity_indicator on a unit start
+			}
+			d = append(d, c...)
+		}
+		emit("gap-before-unit-start", scenario{kind: r.Intn(3), optSize: 188, fault: -1, data: d, ops: ops(r)}.tok())
+	}
 	// truncation at every offset of a small stream
 	m := genRefStream(r, streamOpts{PESPIDs: 1, UnitsPerPID: 2, MaxPES: 200, Tables: true})
 	data := m.bytes()
